@@ -236,3 +236,126 @@ def bits_of(v, t):
     if t == "bool":
         return "1" if v else "0"
     return format(v & 0xFF, "08b")
+
+
+# ---- statements: compound assignments through accessor chains, if-statements, blocks -------------------------------
+ASSIGN_OPS = ["+", "-", "*", "/", "%", "&", "|", "^", "<<", ">>"]
+# the mutable state of a generated statement program: name -> (type text, initialiser text, leaf layout)
+STATE = [
+    ("m", "u8", "b"), ("n", "i8", "y"),
+    ("ua", "[u8; 3]", "[a, b, 3u8]"), ("tu", "(u8, i8)", "(a, x)"), ("sa", "[i8; 2]", "[x, y]"),
+    ("ne", "((u8, [i8; 2]), bool)", "((a, [x, y]), p)"),
+]
+
+
+def init_state(env):
+    return {"m": env["b"], "n": env["y"], "ua": [env["a"], env["b"], 3], "tu": [env["a"], env["x"]],
+            "sa": [env["x"], env["y"]], "ne": [[env["a"], [env["x"], env["y"]]], env["p"]]}
+
+
+def targets(rng):
+    """(source text, path into the state, element type)"""
+    k3, k2 = rng.randint(0, 2), rng.randint(0, 1)
+    us = rng.choice(["", "usize"])
+    return rng.choice([
+        ("m", ("m",), "u8"), ("n", ("n",), "i8"),
+        (f"ua[{k3}{us}]", ("ua", k3), "u8"), ("ua[i]", ("ua", "i"), "u8"),
+        ("tu.0", ("tu", 0), "u8"), ("tu.1", ("tu", 1), "i8"),
+        (f"sa[{k2}{us}]", ("sa", k2), "i8"),
+        ("ne.0.0", ("ne", 0, 0), "u8"), (f"ne.0.1[{k2}{us}]", ("ne", 0, 1, k2), "i8"),
+    ])
+
+
+def gen_stmt(rng, d):
+    r = rng.random()
+    if d > 0 and r < 0.2:
+        c = gen(rng, "bool", 2, VARS)
+        body = [gen_stmt(rng, d - 1) for _ in range(rng.choice([1, 1, 2]))]
+        els = [gen_stmt(rng, d - 1) for _ in range(rng.choice([0, 0, 1, 2]))] if rng.random() < 0.5 else None
+        return ("ifs", c, body, els)
+    if d > 0 and r < 0.27:
+        return ("blk", [gen_stmt(rng, d - 1) for _ in range(rng.choice([1, 2]))])
+    text, path, t = targets(rng)
+    op = rng.choice(ASSIGN_OPS + ["="])
+    while True:
+        rhs = gen(rng, "u8" if op in ("<<", ">>") else t, rng.choice([0, 1, 2]), VARS)
+        if not (op == "*" and (rhs[0] == "lit" or has_neg_mul_literal(rhs))) and not has_neg_mul_literal(rhs):
+            break
+    return ("asg", text, path, t, op, rhs)
+
+
+def show_stmt(s, last):
+    if s[0] == "ifs":
+        out = "if " + show(s[1], 0) + " { " + show_stmts(s[2]) + " }"
+        if s[3] is not None:
+            out += " else { " + show_stmts(s[3]) + " }"
+        return out
+    if s[0] == "blk":
+        return "{ " + show_stmts(s[1]) + " }"
+    _, text, path, t, op, rhs = s
+    return f"{text} {op if op == '=' else op + '='} {show(rhs, 0)};"
+
+
+def show_stmts(ss):
+    return " ".join(show_stmt(s, k == len(ss) - 1) for k, s in enumerate(ss))
+
+
+def _get(st, path, i):
+    v = st[path[0]]
+    for p in path[1:]:
+        v = v[i if p == "i" else p]
+    return v
+
+
+def _set(st, path, i, val):
+    if len(path) == 1:
+        st[path[0]] = val
+        return
+    v = st[path[0]]
+    for p in path[1:-1]:
+        v = v[i if p == "i" else p]
+    v[i if path[-1] == "i" else path[-1]] = val
+
+
+def run_stmts(ss, st, env):
+    for s in ss:
+        if s[0] == "ifs":
+            if ev(s[1], env):
+                run_stmts(s[2], st, env)
+            elif s[3] is not None:
+                run_stmts(s[3], st, env)
+        elif s[0] == "blk":
+            run_stmts(s[1], st, env)
+        else:
+            _, text, path, t, op, rhs = s
+            i = env["a"] % 3
+            if op == "=":
+                _set(st, path, i, ev(rhs, env))
+            else:
+                cur = _get(st, path, i)
+                _set(st, path, i, ev(("bin", op, ("lit", cur, t), rhs, t), env))
+
+
+def program_stmts(rng):
+    ss = [gen_stmt(rng, 2) for _ in range(rng.choice([1, 2, 3, 4]))]
+    decl = " ".join(f"let mut {n}: {t} = {init};" for n, t, init in STATE)
+    ret_t = "(" + ", ".join(t for _, t, _ in STATE) + ")"
+    src = ("pub fn main(" + ", ".join(f"{v}: {vt}" for v, vt in VARS) + f") -> {ret_t} {{ let i: usize = (a % 3u8) as usize; "
+           + decl + " " + show_stmts(ss) + " (" + ", ".join(n for n, _, _ in STATE) + ") }")
+    return ("stmts", ss), "stmts", src
+
+
+def state_bits(st):
+    return (bits_of(st["m"], "u8") + bits_of(st["n"], "i8") + "".join(bits_of(v, "u8") for v in st["ua"])
+            + bits_of(st["tu"][0], "u8") + bits_of(st["tu"][1], "i8") + "".join(bits_of(v, "i8") for v in st["sa"])
+            + bits_of(st["ne"][0][0], "u8") + "".join(bits_of(v, "i8") for v in st["ne"][0][1]) + bits_of(st["ne"][1], "bool"))
+
+
+def result_bits(e, t, env):
+    """bits the circuit must return (raises Panic / Unspecified)"""
+    if t == "stmts":
+        st = init_state(env)
+        run_stmts(e[1], st, env)
+        return state_bits(st)
+    v = ev(e, env)
+    return None if v is None else bits_of(v, t)
